@@ -369,3 +369,70 @@ def uniform_path_directions_two_reflections_down():
 @harness(clause="uniform-symmetry", tier="thorough")
 def uniform_path_directions_three_reflections():
     _uniform_directions(3, -1)
+
+
+# ---------------------------------------------------------------------------
+# layered tracer: its solution search is a numeric scan over launch angles (outside the executor's subset), so
+# reciprocity there is a bounded stand-in (label B): native sampling over stacks of uniform layers, plus the one geometry
+# with a gradient-index layer at which reciprocity is known to fail on the pinned tree (known finding D14)
+# ---------------------------------------------------------------------------
+
+LT = "pyrex.custom.layered_ice.ray_tracing.LayeredRayTracer"
+LI = "pyrex.custom.layered_ice.ice_model.LayeredIce"
+
+
+def _both_ways(ice, a, b):
+    fwd = new(LT, a, b, ice_model=ice)
+    bwd = new(LT, b, a, ice_model=ice)
+    return fwd, bwd, sorted(fwd.solutions, key=lambda p: p.tof), sorted(bwd.solutions, key=lambda p: p.tof)
+
+
+@harness(clause="solution-count")
+def layered_tracer_exists_exactly_when_its_solution_list_is_non_empty():
+    """exists is checked against the contract of `solutions` (an arbitrary list, here empty or not), for end points
+    anywhere - in particular both inside the ice, where a shadowed geometry still has no solution"""
+    class _Ice:
+        def contains(self, point):
+            return True
+    for k, sols in enumerate(([], ["one-path"], ["p", "q", "r"])):
+        tr = obj(LT, from_point=vec("from"), to_point=vec("to"), ice=_Ice())
+        tr._lazy_solutions = sols
+        prove("%d-solutions:exists-is-%s" % (len(sols), len(sols) > 0), tr.exists is (len(sols) > 0))
+
+
+@harness(clause="layered-reciprocity-uniform-layers", bounded=12, label="B")
+def layered_tracer_over_uniform_layers_is_reciprocal_sampled():
+    n1 = real("index_top", 1.3, 1.5)
+    n2 = n1 + real("index_step_1", 0.02, 0.2)
+    n3 = n2 + real("index_step_2", 0.02, 0.2)
+    e1 = -real("first_boundary_depth", 40, 200)
+    e2 = e1 - real("second_layer_thickness", 50, 300)
+    ice = new(LI, [new("pyrex.ice_model.UniformIce", index=n1, valid_range=(e1, 0)),
+                   new("pyrex.ice_model.UniformIce", index=n2, valid_range=(e2, e1)),
+                   new("pyrex.ice_model.UniformIce", index=n3, valid_range=(-2850, e2))])
+    a = (real("ax", -600, 600), real("ay", -600, 600), -real("a_depth", 5, 600))
+    b = (real("bx", -600, 600), real("by", -600, 600), -real("b_depth", 5, 600))
+    fwd, bwd, s1, s2 = _both_ways(ice, a, b)
+    prove("exists-iff-solutions-non-empty", And(fwd.exists == (len(s1) > 0), bwd.exists == (len(s2) > 0)))
+    prove("same-number-of-solutions-in-both-directions", len(s1) == len(s2))
+    if len(s1) == len(s2):
+        ok_t, ok_l, ok_d = True, True, True
+        for p, q in zip(s1, s2):
+            ok_t = ok_t and abs(p.tof - q.tof) <= 1e-6 * p.tof
+            ok_l = ok_l and abs(p.path_length - q.path_length) <= 1e-6 * p.path_length
+            ok_d = ok_d and bool(np.allclose(p.emitted_direction, -np.asarray(q.received_direction), atol=1e-4)
+                                 and np.allclose(p.received_direction, -np.asarray(q.emitted_direction), atol=1e-4))
+        prove("equal-times-of-flight", ok_t)
+        prove("equal-path-lengths", ok_l)
+        prove("directions-exchanged-and-reversed", ok_d)
+
+
+@harness(clause="layered-reciprocity-gradient-layer", bounded=3, label="B")
+def layered_tracer_with_a_gradient_layer_at_the_reported_geometry():
+    ice = new(LI, [new("pyrex.ice_model.AntarcticIce", valid_range=(-200, 0)),
+                   new("pyrex.ice_model.UniformIce", index=1.78, valid_range=(-2850, -200))])
+    a, b = (500.0, 500.0, -100.0), (0.0, 0.0, -150.0)
+    fwd, bwd, s1, s2 = _both_ways(ice, a, b)
+    prove("exists-iff-solutions-non-empty", And(fwd.exists == (len(s1) > 0), bwd.exists == (len(s2) > 0)))
+    # (500, 500, -100) <-> (0, 0, -150), AntarcticIce firn (0 .. -200 m) over uniform bulk ice
+    prove("same-number-of-solutions-in-both-directions", len(s1) == len(s2))
